@@ -1,5 +1,6 @@
 import S2T.Lemmas.SharePoint
 import S2T.Gen.SharePoint
+import S2T.Props.C18_Folders
 /-!
 # C18 — SharePoint listing is complete, exact and fault-contained
 
@@ -17,6 +18,10 @@ On the upstream tree the statement is FALSE in three places (reproduced on the r
 the property theorems below are about `Cfg.fixed` and are tied to the source by `gen_cfg_fixed`
 (re-decided on the behaviour probed from the current tree on every run); the counterexample theorems
 `legacy_*` show that each switch is needed.
+
+Start folders addressed by path (`folder_paths`) and the lazy (generator) delivery of partial results are in
+the part file `Props/C18_Folders.lean` (namespace `S2T.C18.Folders`); `listFiltered` below is
+`list(list_files_filtered(...))` with `folder_paths = []` (`Folders.C18_lazy_is_eager`).
 
 Quantifiers: every library `L : Lib` (any tree), every page size `n > 0`, every fuel above an explicit
 bound (fuel only limits how long the model follows the *server's* nextLink chains / folder depth), every
